@@ -127,6 +127,22 @@ Section C12.
                (c_vars st) (c_vars st').
   Proof. exact (model_reindex_values pd_get_loc pd_contains cast st st' new_span new_id fv strict fills fresh). Qed.
 
+  (* ---------- observed by label (the property's observation point: every series of the result vs the original by label):
+     reading the result through obj[name, p] — with ANY lookup meeting locate_spec on the new span (C10) — gives for every
+     variable and every period p of the new span its old value if p was a period of the old span, else the variable's fill ---------- *)
+  Theorem C12_reindex_then_label_get (st st' : cst) (new_span : span) (new_id : Z) (fv : pyval) (strict : option bool)
+          (fills : list (string * pyval)) (fresh : Z) (lc' : label -> outcome loc) :
+    wf st ->
+    old_span_ok pd_get_loc pd_contains (c_span st) (span_labels new_span) ->
+    reindex_M pd_get_loc pd_contains cast st new_span new_id fv strict fills fresh = Ret st' ->
+    locate_spec (span_labels new_span) lc' ->
+    forall name sr, lookup name (c_vars st) = Some sr ->
+    exists c, fill_cell cast (List.length (span_labels new_span)) (s_dtype sr) (fill_for fills fv name) = Ret c
+      /\ forall p i, pos p (span_labels new_span) = Some i ->
+           get_item_with lc' st' name (KLabel p)
+           = Ret (RScalar (match pos p (span_labels (c_span st)) with Some q => nth q (s_data sr) c | None => c end)).
+  Proof. exact (reindex_then_label_get pd_get_loc pd_contains cast st st' new_span new_id fv strict fills fresh lc'). Qed.
+
   (* ---------- totality: on a well-formed object with an old span of the supported kinds, nothing but the strict test and
      the conversion of a fill value to its variable's dtype can make reindex fail ---------- *)
   Theorem C12_reindex_succeeds (st : cst) (new_span : span) (new_id : Z) (fv : pyval) (strict : option bool)
@@ -207,6 +223,7 @@ Print Assumptions C12_known_fills_strict_irrelevant.
 Print Assumptions C12_pandas_loop_frame.
 Print Assumptions C12_model_reindex_values.
 Print Assumptions C12_reindex_succeeds.
+Print Assumptions C12_reindex_then_label_get.
 Print Assumptions C12_pandas_loop_var.
 Print Assumptions C12_pandas_loop_noop.
 Print Assumptions C12_pandas_reindex_meta.
